@@ -8,6 +8,7 @@ from __future__ import annotations
 import concurrent.futures as cf
 import contextlib
 import io
+import itertools
 import os
 import shutil
 import warnings
@@ -284,6 +285,42 @@ def run_dag_fault(spec, out_name, kw, fidx, exc, entry):
     return res
 
 
+def run_dag_two_faults(spec, out_name, kw, first, second, exc1="ValueError", exc2="KeyError"):
+    """history of two failing calls on ONE pipeline object (different failing functions): the pipeline's snapshot must be
+    the one of the latest failure"""
+    out_t = tuple(out_name) if isinstance(out_name, list) else out_name
+    ref = gen_dag.ref_eval(spec, out_t, kw)
+    if first not in ref.ran or second not in ref.ran or first == second:
+        return []
+    current = {}
+    seen = {}
+
+    def hook(name, kwargs):
+        f = current.get("fault")
+        if f and name == f["func"]:
+            seen["raw"] = dict(kwargs)
+            raise EXC[f["exc"]](1)
+    p = gen_dag.build(spec, hook=hook)
+    base = {"mode": "dag-two-failures", "deco": spec.get("deco")}
+    res = []
+    for idx, exc in ((first, exc1), (second, exc2)):
+        current["fault"] = {"func": spec["funcs"][idx]["name"], "call": 1, "exc": exc}
+        try:
+            with contextlib.redirect_stdout(io.StringIO()):
+                p(out_t, **kw)
+        except Exception as e:  # noqa: BLE001
+            if not same_exc(e, current["fault"]):
+                return [({"kind": "exception-changed", "got": type(e).__name__, **base}, f"two-failure history on {spec['funcs']}: caller got {e!r}")]
+        else:
+            return [({"kind": "failure-swallowed", **base}, f"two-failure history: failing {current['fault']} did not surface")]
+    snap = p.error_snapshot
+    if not isinstance(snap, ErrorSnapshot) or not same_exc(snap.exception, current["fault"]):
+        res.append(({"kind": "pipeline-snapshot-stale", "first_listed_before_second": first < second, **base},
+                    f"{[(f['name'], f['params']) for f in spec['funcs']]}: after {spec['funcs'][first]['name']} failed and then {spec['funcs'][second]['name']} failed, "
+                    f"pipeline.error_snapshot holds {getattr(snap, 'exception', None)!r} instead of the latest failure"))
+    return res
+
+
 # ------------------------------------------------------------------------------------------------
 def map_faults(pipe):
     spec = c03.PIPES[pipe]
@@ -369,10 +406,18 @@ def run_unit(unit):
                         acc.stratum("mode-dag-" + entry)
                         for sig, text in run_dag_fault(spec, out, kw, fidx, exc, entry):
                             acc.violation(sig, {"kind": "dag", "spec": spec, "out": out, "kw": kw, "fidx": fidx, "exc": exc, "entry": entry}, text)
+                # histories of two failures on one pipeline object
+                for i, j in itertools.permutations(ref.ran, 2):
+                    acc.case(hash((gen_dag._key(spec), str(out), tuple(sorted(kw)), i, j, "two")))
+                    acc.stratum("mode-dag-two-failures")
+                    for sig, text in run_dag_two_faults(spec, out, kw, i, j):
+                        acc.violation(sig, {"kind": "dag2", "spec": spec, "out": out, "kw": kw, "first": i, "second": j}, text)
     return acc
 
 
 def replay(art):
+    if art["kind"] == "dag2":
+        return [s for s, _ in run_dag_two_faults(art["spec"], art["out"], art["kw"], art["first"], art["second"])]
     if art["kind"] == "dag":
         return [s for s, _ in run_dag_fault(art["spec"], art["out"], art["kw"], art["fidx"], art["exc"], art["entry"])]
     ch = explore.Chooser(art["choices"]) if art.get("choices") is not None else None
